@@ -167,3 +167,10 @@ def frame(w, data_seq, nbytes):
         used = 4 + nbytes
     pad = (-used) % 4
     return s + (Seq.from_bytes(b'\0' * pad) if pad else Seq())
+
+
+def frame_sym(w, data_seq, n, cls_, r):
+    """framing for a payload whose length n = 4q + r is SYMBOLIC within a framing class ('short': n <= 253, 'long': n >= 254)"""
+    if cls_ == 'short':
+        return le_uint(n, 1) + data_seq + (Seq.from_bytes(b'\0' * ((-(1 + r)) % 4)) if (-(1 + r)) % 4 else Seq())
+    return Seq.from_bytes(b'\xfe') + le_uint(n, 3) + data_seq + (Seq.from_bytes(b'\0' * ((-r) % 4)) if (-r) % 4 else Seq())
